@@ -67,7 +67,7 @@ class Hist:
     version: str | None          # reported version at start (None: unknown)
     metric: bool = True
     preload: list = field(default_factory=list)   # ("node", id, type, pv, sn, sv, bat, hb, reboot, sleeping) / ("child", n, key, cid, ctype, desc) / ("val", n, key, t, v)
-    ops: list = field(default_factory=list)       # ("recv", line, faults, time) / ("send", fields|None, buffer, faults)
+    ops: list = field(default_factory=list)       # ("recv", line, faults, time) / ("send", fields|None, buffer, faults) / SESSION
 
     def to_json(self):
         return {"version": self.version, "metric": self.metric, "preload": [list(p) for p in self.preload],
@@ -77,6 +77,12 @@ class Hist:
     def from_json(j):
         return Hist(j["version"], j["metric"], [tuple(p) for p in j["preload"]],
                     [tuple(tuple(x) if isinstance(x, list) else x for x in o) for o in j["ops"]])
+
+
+# Leaving the gateway context and entering it again (a reconnect): `__aexit__` then `__aenter__` on the same Gateway
+# object.  Not an operation of the Lean model: the model's state (registry, version, both buffers) must simply be
+# the same afterwards, which is how the comparison treats it (no driver line, expected observation "ok", no writes).
+SESSION = ("session", "", (), None)
 
 
 def b(x: bool) -> str:
@@ -181,6 +187,13 @@ async def _run_impl(h: Hist):
                 out = render_msg(m)
             except BaseException as e:  # noqa: BLE001
                 out = render_exc(e)
+        elif op[0] == "session":
+            try:
+                await gw.__aexit__(None, None, None)
+                await gw.__aenter__()
+                out = "ok"
+            except BaseException as e:  # noqa: BLE001
+                out = render_exc(e)
         else:
             _, fields, buffer, faults = op
             tr.faults = list(faults)
@@ -229,6 +242,9 @@ def model_lines(h: Hist) -> list[str]:
         if op[0] == "recv":
             _, line, faults, now = op
             out.append(f"grecv {enc(line)} {faults_tok(faults)} " + " ".join(str(x) for x in now))
+        elif op[0] == "session":
+            out.append("gdump")
+            continue
         else:
             _, fields, buffer, faults = op
             if fields is None:
@@ -248,14 +264,18 @@ def model_obs(h: Hist, outs: list[str]):
             raise lib.ModelError(f"model rejected a setup operation: {o}")
     res = [("init W", outs[k])]
     i = k + 1
-    for _ in h.ops:
+    for op in h.ops:
+        if op[0] == "session":
+            res.append(("ok W", outs[i]))
+            i += 1
+            continue
         res.append((outs[i], outs[i + 1]))
         i += 2
     return res
 
 
 def n_model_lines(h: Hist) -> int:
-    return 2 + len(h.preload) + 2 * len(h.ops)
+    return 2 + len(h.preload) + sum(1 if op[0] == "session" else 2 for op in h.ops)
 
 
 def compare(h: Hist, impl, model, view: str = "full"):
@@ -324,17 +344,23 @@ def pick_type(rng, version, kind):
     return int(rng.choice(list(v["stream"])))
 
 
+# presentation types: mostly the usual ones, plus the edges of every version's Presentation table (1.4 ends at 25,
+# 1.5 at 35, 2.x at 39) and values in no table: the handlers record whatever number was presented
+NODE_TYPES = [17, 17, 17, 17, 18, 17, 0, 6, 25, 26, 39, 40, 200]
+CHILD_TYPES = [6, 3, 0, 6, 3, 0, 25, 26, 35, 36, 39, 40, 200, 17]
+
+
 def gen_line(rng, version, nodes=NODES, profile=None) -> str:
     """One received line, mostly valid, built from the repo's own tables."""
     r = rng.random()
     n = rng.choice(nodes)
     c = rng.choice(CHILDREN)
     if r < 0.10:
-        return f"{n};255;0;0;17;{rng.choice(['2.0', '1.4', '2.2.1', 'x'])}"
+        return f"{n};255;0;0;{rng.choice(NODE_TYPES)};{rng.choice(['2.0', '1.4', '2.2.1', 'x'])}"
     if r < 0.13:
         return f"0;255;0;0;18;{rng.choice(VERSION_PAYLOADS)}"
     if r < 0.22:
-        return f"{n};{c};0;0;{rng.choice([6, 3, 0])};{rng.choice(['desc', '', 'a;b'])}"
+        return f"{n};{c};0;0;{rng.choice(CHILD_TYPES)};{rng.choice(['desc', '', 'a;b'])}"
     if r < 0.37:
         return f"{n};{c};1;{rng.choice([0, 0, 1])};{rng.choice(VTYPES)};{rng.choice(['20.5', '1', '', 'on;off', 'é'])}"
     if r < 0.45:
